@@ -137,8 +137,8 @@ theorem sim_component {env : Env} (hu : env.useLimits = true) :
                 have hstart : foldStart c' ns = foldStart c ns := by simp only [foldStart, htags]
                 have hns' : env.adapter.nbrs g.eid fromV.typeName g.name g.params c'.active = .ok ns := by
                   rw [hact']; exact hns
-                rw [hns', hstart]
-                simp only [R.bind_ok]
+                rw [hns']
+                simp only [R.bind_ok, hstart]
                 obtain ⟨computed', hcomp', hrelc⟩ :=
                   ih g.component (hsub g hg) hgall _ _ computed rfl hcomp
                 rw [hcomp']
@@ -153,5 +153,147 @@ theorem sim_component {env : Env} (hu : env.useLimits = true) :
             simp only [R.bind_ok]
             exact ihs (fun g' hg' => hmem g' (by simp [hg'])) v' ctxsF ctxsF' out hrelF h
       exact stages_sim stages hstfolds _ ctxs1 ctxs1' out hrel1 h
+
+theorem noLimits_eq_self {env : Env} (h : env.useLimits = false) : env.noLimits = env := by
+  cases env; simp_all [Env.noLimits]
+
+theorem mapR_congr_norm {β : Type} {f : Ctx → R β} {N : Ctx → Ctx} (hf : ∀ c, f (N c) = f c)
+    {l l' : List Ctx} (h : l.map N = l'.map N) : mapR f l = mapR f l' := by
+  have e1 : mapR f (l.map N) = mapR f l := by rw [mapR_map]; simp only [hf]
+  have e2 : mapR f (l'.map N) = mapR f l' := by rw [mapR_map]; simp only [hf]
+  rw [← e1, h, e2]
+
+/-- **Global simulation.**  Under the guard and the side conditions `FoldOK` for every fold of the
+query, a successful run of the reference semantics (no limits) is reproduced, row for row, by the
+run with the fold-count limits. -/
+theorem interpret_sim (env : Env) (ir : IRQuery)
+    (hguard : countUnobservedC ir.rootComponent = true)
+    (hok : AllFoldsC (FoldOK env) ir.rootComponent)
+    {rows : List Row} (h : interpret env.noLimits ir = .ok rows) : interpret env ir = .ok rows := by
+  cases hu : env.useLimits with
+  | false => rw [noLimits_eq_self hu] at h; exact h
+  | true =>
+    unfold interpret at h ⊢
+    obtain ⟨starts, hs, h⟩ := R.bind_eq_ok h
+    have hs' : env.adapter.start ir.rootName ir.rootParams ir.rootComponent.root = .ok starts := hs
+    rw [hs']
+    simp only [R.bind_ok]
+    unfold interpretFrom at h ⊢
+    obtain ⟨out, hc, h⟩ := R.bind_eq_ok h
+    obtain ⟨out', hc', hrel⟩ := sim_component hu (fuelFor ir) ir.rootComponent hguard hok _ _ out rfl hc
+    rw [hc']
+    simp only [R.bind_ok]
+    have hfun : constructRow env.noLimits ir.rootComponent = constructRow env ir.rootComponent :=
+      funext fun c => constructRow_noLimits env ir.rootComponent c
+    rw [hfun] at h
+    rw [← mapR_congr_norm (N := nrm ir.rootComponent)
+      (fun c => constructRow_norm (truncEids ir.rootComponent) env ir.rootComponent c) hrel]
+    exact h
+
+/-! ### typed count-filter arguments make the limit computations total -/
+
+def isIntValue (v : Value) : Bool := v.numVal.isSome
+
+/-- What argument validation guarantees for the variable of a count filter: an integer for the
+comparison operators, a list of integers for `one_of` (the inferred variable types are `Int!` and
+`[Int!]!`). Filters the limit computations do not look at are unconstrained. -/
+def countArgTyped (env : Env) (f : IRFilter) : Prop :=
+  match f.left, f.op, f.right with
+  | .count, .bin .oneOf, some (.var n _) =>
+    ∃ vs, env.arg n = .ok (.list vs) ∧ ∀ v ∈ vs, isIntValue v = true
+  | .count, .bin .equals, some (.var n _)
+  | .count, .bin .lessThanOrEqual, some (.var n _)
+  | .count, .bin .lessThan, some (.var n _)
+  | .count, .bin .greaterThanOrEqual, some (.var n _)
+  | .count, .bin .greaterThan, some (.var n _) => ∃ v, env.arg n = .ok v ∧ isIntValue v = true
+  | _, _, _ => True
+
+theorem usizeExpect_of_int {v : Value} (h : isIntValue v = true) : ∃ k, usizeExpect v = .ok k := by
+  cases v <;> simp [isIntValue, Value.numVal] at h
+  · exact ⟨_, rfl⟩
+  · exact ⟨_, rfl⟩
+
+theorem listMaxR_of_ints {vs : List Value} (h : ∀ v ∈ vs, isIntValue v = true) :
+    ∃ r, listMaxR vs = .ok r := by
+  induction vs with
+  | nil => exact ⟨none, rfl⟩
+  | cons v vs ih =>
+    obtain ⟨k, hk⟩ := usizeExpect_of_int (h v (by simp))
+    obtain ⟨r, hr⟩ := ih fun w hw => h w (by simp [hw])
+    simp only [listMaxR, R.bind_eq_bind, hk, hr, R.bind_ok]
+    cases r <;> exact ⟨_, rfl⟩
+
+theorem maxLimitOf_total {env : Env} {f : IRFilter} (h : countArgTyped env f) :
+    ∃ o, maxLimitOf env f = .ok o := by
+  unfold maxLimitOf
+  split
+  · rename_i n _ h1 h2 h3
+    simp only [countArgTyped, h1, h2, h3] at h
+    obtain ⟨v, hv, hi⟩ := h
+    obtain ⟨k, hk⟩ := usizeExpect_of_int hi
+    exact ⟨some k, by simp [hv, hk]⟩
+  · rename_i n _ h1 h2 h3
+    simp only [countArgTyped, h1, h2, h3] at h
+    obtain ⟨v, hv, hi⟩ := h
+    obtain ⟨k, hk⟩ := usizeExpect_of_int hi
+    exact ⟨some k, by simp [hv, hk]⟩
+  · rename_i n _ h1 h2 h3
+    simp only [countArgTyped, h1, h2, h3] at h
+    obtain ⟨v, hv, hi⟩ := h
+    obtain ⟨k, hk⟩ := usizeExpect_of_int hi
+    exact ⟨some (k - 1), by simp [hv, hk]⟩
+  · rename_i n _ h1 h2 h3
+    simp only [countArgTyped, h1, h2, h3] at h
+    obtain ⟨vs, hv, hi⟩ := h
+    obtain ⟨r, hr⟩ := listMaxR_of_ints hi
+    exact ⟨r, by simp [hv, hr]⟩
+  · exact ⟨none, rfl⟩
+
+theorem maxFoldLimit_total {env : Env} {fs : List IRFilter} (h : ∀ f ∈ fs, countArgTyped env f)
+    (acc : Option Nat) : ∃ o, maxFoldLimit env fs acc = .ok o := by
+  induction fs generalizing acc with
+  | nil => exact ⟨acc, rfl⟩
+  | cons f fs ih =>
+    obtain ⟨o, ho⟩ := maxLimitOf_total (h f (by simp))
+    simp only [maxFoldLimit, R.bind_eq_bind, ho, R.bind_ok]
+    exact ih (fun g hg => h g (by simp [hg])) _
+
+theorem minLimitOf_total {env : Env} {f : IRFilter} (h : countArgTyped env f) :
+    ∃ o, minLimitOf env f = .ok o := by
+  unfold minLimitOf
+  split
+  · rename_i n _ h1 h2 h3
+    simp only [countArgTyped, h1, h2, h3] at h
+    obtain ⟨v, hv, hi⟩ := h
+    obtain ⟨k, hk⟩ := usizeExpect_of_int hi
+    exact ⟨some k, by simp [hv, hk]⟩
+  · rename_i n _ h1 h2 h3
+    simp only [countArgTyped, h1, h2, h3] at h
+    obtain ⟨v, hv, hi⟩ := h
+    obtain ⟨k, hk⟩ := usizeExpect_of_int hi
+    exact ⟨some (k + 1), by simp [hv, hk]⟩
+  · exact ⟨none, rfl⟩
+
+theorem minFoldLimit_total {env : Env} {fs : List IRFilter} (h : ∀ f ∈ fs, countArgTyped env f)
+    (acc : Option Nat) : ∃ o, minFoldLimit env fs acc = .ok o := by
+  induction fs generalizing acc with
+  | nil => exact ⟨acc, rfl⟩
+  | cons f fs ih =>
+    obtain ⟨o, ho⟩ := minLimitOf_total (h f (by simp))
+    simp only [minFoldLimit, R.bind_eq_bind, ho, R.bind_ok]
+    cases o with
+    | none => exact ⟨none, rfl⟩
+    | some k => exact ih (fun g hg => h g (by simp [hg])) _
+
+/-- With typed count-filter arguments `get_max/min_fold_count_limit` do not panic. -/
+theorem foldLimits_total (env : Env) (parent : Component) (g : Fold)
+    (h : ∀ f ∈ g.post, countArgTyped env f) : ∃ lim, foldLimits env parent g = .ok lim := by
+  unfold foldLimits
+  split
+  · obtain ⟨a, ha⟩ := maxFoldLimit_total h none
+    obtain ⟨b, hb⟩ := minFoldLimit_total h none
+    simp only [R.bind_eq_bind, ha, R.bind_ok, effectiveMinLimit, hb]
+    cases b <;> exact ⟨_, rfl⟩
+  · exact ⟨_, rfl⟩
 
 end TF.Engine
